@@ -37,7 +37,9 @@ Inductive plx :=
   | PCoalesce (a b : plx)
   | PWhen (c a b : plx)               (* pl.when(c).then(a).otherwise(b): a null condition takes the otherwise branch *)
   | PAgg (k : aggk) (a : plx)         (* a.sum() a.mean() a.min() a.max(): nulls are skipped; sum of nothing is 0 *)
-  | PShift (n : Z) (a : plx).         (* a.shift(n) *)
+  | PShift (n : Z) (a : plx)          (* a.shift(n) *)
+  | PFirst (a : plx) | PLast (a : plx)   (* a.drop_nulls().first() / .last(): first / last non-null value of the group *)
+  | PFill (forward : bool) (a : plx). (* a.fill_null(strategy="forward" | "backward") *)
 
 Definition pl_cmp (c : cmp) (a b : val) : val :=
   match a, b with VNull, _ | _, VNull => VNull | _, _ => compare_vals fl_pandas c a b end.
@@ -74,6 +76,12 @@ Fixpoint plx_at (cs : list string) (rs : list (list val)) (i : nat) (x : plx) : 
   | PAgg k a => pl_agg k (map (fun j => plx_at cs rs j a) (seq 0 (List.length rs)))
   | PShift n a => let j := (Z.of_nat i - n)%Z in
                   if (Z.leb 0 j && Z.ltb j (Z.of_nat (List.length rs)))%bool then plx_at cs rs (Z.to_nat j) a else VNull
+  | PFirst a => hd VNull (filter (fun v => negb (is_null v)) (map (fun j => plx_at cs rs j a) (seq 0 (List.length rs))))
+  | PLast a => List.last (filter (fun v => negb (is_null v)) (map (fun j => plx_at cs rs j a) (seq 0 (List.length rs)))) VNull
+  | PFill fwd a =>
+      let vs := map (fun j => plx_at cs rs j a) (seq 0 (List.length rs)) in
+      if fwd then List.last (filter (fun v => negb (is_null v)) (firstn (S i) vs)) VNull
+      else hd VNull (filter (fun v => negb (is_null v)) (skipn i vs))
   end.
 
 (* ------------------------------------------------------------------ _populate_expr_impl_map / impl_map_arbitrary_arity *)
@@ -116,6 +124,8 @@ Definition impl (ext : bool) (op : string) (xs : list plx) : res plx :=
       | "count" => Ok (count_expr x)
       | "size" => Ok (PAgg ASum (PCol one_col))
       | "shift" => Ok (PShift 1 x)
+      | "first" => Ok (PFirst x) | "last" => Ok (PLast x)
+      | "ffill" => Ok (PFill true x) | "bfill" => Ok (PFill false x)
       | "cumsum" | "cummax" | "cummin" | "cumprod" | "cumcount" => Raise
       | "maximum" | "minimum" => Ok (missing_if_any_missing [x] x)
       | "*" | "and" | "&" | "or" | "|" | "fmax" | "fmin" | "coalesce" => Ok x
@@ -468,6 +478,8 @@ Fixpoint keys_distinct (cs : list string) (ks : list string) (rs : list (list va
   end.
 
 Definition agg_of (e : expr) : string := match e with EOp op _ => op | _ => "" end.
+(* window functions whose value depends on the order inside the partition (and that Polars 1.44.2 still has) *)
+Definition order_sensitive_fns : list string := ["shift"; "first"; "last"; "ffill"; "bfill"].
 
 (* one guard component per cause; each returns true when the pipeline is outside that cause *)
 Inductive cause := CVocab | CReserved | CCmpNull | CLogicNull | CNullJoinKey | CJoinKeyNames | CJoinKeyRepr
@@ -510,9 +522,9 @@ Definition step_guard (c : cause) (p : op) (srcs : list table) : bool :=
   | CSortNulls, OOrder _ cs _ (Some _), [t] => keys_nonnull (cols t) cs (rows t)
   | CSortTies, OOrder _ cs _ (Some _), [t] => keys_distinct (cols t) cs (rows t)
   | CSortNulls, OExtend _ ops true w, [t] =>
-      negb (existsb (fun ke => eqb (agg_of (snd ke)) "shift") ops) || keys_nonnull (cols t) (w_order w) (rows t)
+      negb (existsb (fun ke => mem (agg_of (snd ke)) order_sensitive_fns) ops) || keys_nonnull (cols t) (w_order w) (rows t)
   | CSortTies, OExtend _ ops true w, [t] =>
-      negb (existsb (fun ke => eqb (agg_of (snd ke)) "shift") ops) || keys_distinct (cols t) (w_part w ++ w_order w) (rows t)
+      negb (existsb (fun ke => mem (agg_of (snd ke)) order_sensitive_fns) ops) || keys_distinct (cols t) (w_part w ++ w_order w) (rows t)
   | CGroupKeyRepr, OProject _ _ gb, [t] =>
       (* equivalent group keys are written the same way (no 1 next to 1.0 or True): the key an output row shows does not depend on which row came first *)
       forallb (fun r1 => forallb (fun r2 => negb (keys_eqv (key_of (cols t) gb r1) (key_of (cols t) gb r2))
